@@ -267,6 +267,10 @@ def check_regex_resolution_per_evaluation(repo: Repo, res: Result) -> None:
         why_a = f"the matcher factory LayerRule hands to the wrapped Rule keeps the matcher it built (`{kept}`), so every assert_applies of a layer rule evaluates with the same matcher"
     # (b) does every match() resolve the regexes against its evaluable?
     vm = dview(repo, match, lm, family(repo, lm), tag="lm")
+    if not _converter_calls(repo, T, vm, conv):
+        # the resolution was moved into a helper object (`requirement.resolved_against(evaluable)`, `Resolution.resolve(..)`,
+        # a NamedTuple / dataclass factory): inline the methods of other classes through which a conversion is reached
+        vm = dview(repo, match, lm, resolution_policy(repo, lm, conv), tag="lm-resolution")
     ev = match.param_names[1] if len(match.param_names) > 1 else None
     convs = []
     rebuilt: list[ast.Call] = []
@@ -315,6 +319,60 @@ def check_regex_resolution_per_evaluation(repo: Repo, res: Result) -> None:
         res.add("C05.R7", key_of(repo, vm, c, f" [{what}]"), False, f"`{norm(c, 60)}` is skipped depending on the matcher's own state ({', '.join(atoms_)}) and {why_a}: a layer rule applied to a second evaluable judges it with the modules its regex layers matched in the first one", where_of(vm, c), kind="dominance")
     else:
         res.undecide("C05.R7", construct, f"`{norm(c, 60)}` depends on matcher state ({', '.join(atoms_)}) and it could not be established whether Rule.assert_applies builds a new matcher per evaluation", where_of(vm, c))
+
+
+def _converter_calls(repo: Repo, T, view: FuncInfo, conv) -> list[ast.Call]:
+    out = []
+    for n in all_nodes(view):
+        if isinstance(n, ast.Call):
+            src = getattr(n, "_src", None)
+            ctx, orig = src if src is not None else (view, n)
+            try:
+                cs, _how = T.callees(ctx, orig, byname_fallback=False)
+            except Exception:  # noqa: BLE001
+                cs = []
+            if any(c.cls is not None and c.cls.fq == conv.fq and not c.name.startswith("_") for c in cs):
+                out.append(n)
+    return out
+
+
+def resolution_policy(repo: Repo, lm, conv):
+    """Inlining policy `family(LayerRuleMatcher)` widened by the methods of *other* classes (and classmethods / factories) from
+    which a public method of ModuleNameConverter is reachable - the path the regex resolution takes when it lives in a helper
+    object.  The converter itself, the detectors and the evaluable stay calls (they are the vocabulary of the rules)."""
+    cache = repo.__dict__.setdefault("_c05_resolution_policy", {})
+    if "allow" in cache:
+        return cache["allow"]
+    from .common import callees_of
+
+    base = family(repo, lm)
+    targets = {m.fq for m in conv.methods.values() if not m.name.startswith("_")}
+    funcs = [f for f in repo.all_functions() if not isinstance(f.node, ast.Lambda)]
+    edges: dict[str, set[str]] = {}
+    for f in funcs:
+        try:
+            edges[f.fq] = {c.fq for c in callees_of(repo, f, byname=False)}
+        except Exception:  # noqa: BLE001
+            edges[f.fq] = set()
+    reaches = set(targets)
+    changed = True
+    while changed:
+        changed = False
+        for fq, cs in edges.items():
+            if fq not in reaches and cs & reaches:
+                reaches.add(fq)
+                changed = True
+    keep_out = ("pytestarch.eval_structure.module_name_converter", "pytestarch.eval_structure.evaluable_graph", "pytestarch.eval_structure.networkxgraph")
+
+    def allow(caller: FuncInfo, callee: FuncInfo) -> bool:
+        if base(caller, callee):
+            return True
+        if callee.module.name in keep_out or callee.fq in targets:
+            return False
+        return callee.fq in reaches
+
+    cache["allow"] = allow
+    return allow
 
 
 def _is_matcher_construction(v: ast.expr, repo: Repo | None = None, T=None, view: FuncInfo | None = None) -> bool:
